@@ -189,3 +189,15 @@ Example C10_nonvacuous_trace :
   run_case (CTrace 3 demo_events [(1%N, [0; 1]); (3%N, [2])] true) = true /\
   run_case (CTrace 3 demo_events [(1%N, [0]); (3%N, [2])] true) = false.
 Proof. vm_compute. split; reflexivity. Qed.
+
+(* A finding the model makes visible (it concerns Close, i.e. property C09, not the writers — they
+   still return ErrClosed): SetReadOnly takes the lock, Close closes closeC, compactionError is
+   still in its no-error loop and simply returns, SetReadOnly's second select takes the closeC
+   branch — and nobody is left to release the lock, so Close's own acquisition never becomes
+   enabled.  Reproduced on the real DB (SetReadOnly racing Close: Close hangs in ~1 of 600 tries). *)
+Example C10_close_stranded_by_setreadonly :
+  match run wmp (init 0) [AROAcquire; ACloseCall; ACloseSignal; AHExit; AROAbort] with
+  | Some s => lock s = true /\ cwl s = true /\ hpc s = HExit /\ ropend s = 0 /\ step wmp s ACloseLock = None
+  | None => False
+  end.
+Proof. vm_compute. repeat split; reflexivity. Qed.
